@@ -142,12 +142,24 @@ def check_done(chk, prog, f):
                 for fld in flds:
                     relsite.setdefault(fld, n)
                     st.add(("rel", fld))
+                # released through a local that took the field's value before the field was reset (t = self->f; self->f = NULL;
+                # del(t)): the field already holds its reset value, nothing dangles
+                a0 = X.strip(args[0])
+                if a0 is not None and a0.get("k") == "ref":
+                    for x in state:
+                        if x[0] == "detached" and x[1] == a0.get("d"):
+                            relsite.setdefault(x[2], n)
                 return frozenset(st)
         if k == "assign" and n.get("op") == "=":
             l = X.strip(n["ch"][0])
             flds = denoted_fields(l, frozenset(), addr)
             if flds:
-                return frozenset(x for x in state if not (x[0] == "rel" and x[1] in flds))
+                st = set(x for x in state if not (x[0] == "rel" and x[1] in flds))
+                for x in list(st):
+                    if x[0] == "alias" and x[2] in flds:
+                        st.discard(x)
+                        st.add(("detached", x[1], x[2]))
+                return frozenset(st)
             if l.get("k") == "ref" and l.get("rk") == "local":
                 st = set(x for x in state if not (x[0] == "alias" and x[1] == l["d"]))
                 for fld in denoted_fields(n["ch"][1], state, addr):
@@ -393,12 +405,34 @@ def check_field_overwrite(chk, prog, f, memo):
 
     def transfer(st, n, blk):
         k = n.get("k")
+        if k == "assign" and n.get("op") == "=" and X.strip(n["ch"][0]).get("k") == "ref":
+            # tmp = REALLOC(self->f, n): the local holds the (moved) block of field f
+            r_ = X.strip(n["ch"][1])
+            d_ = X.strip(n["ch"][0]).get("d")
+            st = frozenset(x for x in st if not (isinstance(x, tuple) and x[0] == "moved" and x[1] == d_))
+            if r_ is not None and any(y_.get("k") == "call" for y_ in walk(r_)):      # REALLOC() may expand to a ?: of calls
+                for fld_ in list(st):
+                    if isinstance(fld_, str) and mentions(n["ch"][1], fld_):
+                        st = st | {("moved", d_, fld_)}
+            if own_fld(n["ch"][1]) not in st:
+                return st
+        if k == "assign" and n.get("op") == "=" and X.strip(n["ch"][0]).get("k") == "ref" and own_fld(n["ch"][1]) in st:
+            # data = self->buff: a local now holds the block as well (it is released through the alias, which the local-leak
+            # rule follows); the field is no longer the only handle
+            return st - {own_fld(n["ch"][1])}
+        if k == "decl":
+            for dcl in n.get("decls", ()):
+                if dcl.get("init") is not None and own_fld(dcl["init"]) in st:
+                    st = st - {own_fld(dcl["init"])}
+            return st
         if k == "assign" and n.get("op") == "=":
             fld = own_fld(n["ch"][0])
             if fld is not None:
                 r = X.strip(n["ch"][1])
                 if mentions(n["ch"][1], fld):
                     return st                      # self->f = REALLOC(self->f, ..): the same block, moved
+                if r.get("k") == "ref" and ("moved", r.get("d"), fld) in st:
+                    return st                      # tmp = REALLOC(self->f, ..); self->f = tmp;
                 st = st - {fld}
                 if r.get("k") == "call" and nullness.fresh_call(r):
                     st = st | {fld}
@@ -414,14 +448,15 @@ def check_field_overwrite(chk, prog, f, memo):
             h = prog.fn(X.callee_name(n) or "")
             if h is not None and args and X.strip(args[0]).get("d") == p0:
                 asg, rel = _field_effects(prog, h, memo)
-                return st - rel - asg
+                return frozenset(x for x in st if not (isinstance(x, str) and (x in rel or x in asg)))
         return st
 
     def visit(st, n, blk):
         k = n.get("k")
         if k == "assign" and n.get("op") == "=":
             fld = own_fld(n["ch"][0])
-            if fld is not None and fld in st and not mentions(n["ch"][1], fld):
+            if fld is not None and fld in st and not mentions(n["ch"][1], fld) and \
+                    not (X.strip(n["ch"][1]).get("k") == "ref" and ("moved", X.strip(n["ch"][1]).get("d"), fld) in st):
                 bad.append((n, fld, None))
         if k == "call":
             h = prog.fn(X.callee_name(n) or "")
@@ -466,6 +501,20 @@ def run(tier="quick"):
         rec = classinfo.rec_of_param(f, 0)
         released.setdefault(rec, set()).update(flds)
         released[rec].update(classinfo.owned_fields(f))
+        # released through a unit-local helper that is handed the address of the field (release_part(&self->proto))
+        for c in X.calls_in(f.body):
+            g_ = prog.fn(X.callee_name(c) or "")
+            if g_ is None or g_.unit is not f.unit or g_.body is None:
+                continue
+            for k_, a_ in enumerate(c["ch"][1:]):
+                sa_ = X.strip(a_)
+                if sa_ is not None and sa_.get("k") == "un" and sa_.get("op") == "&" and self_field(sa_["ch"][0]) is not None and k_ < len(g_.params):
+                    pd_ = g_.params[k_]["d"]
+                    for c2 in X.calls_in(g_.body):
+                        if own.release_kind(c2) in ("free", "del") and c2["ch"][1:]:
+                            t_ = X.strip(c2["ch"][-1] if X.callee_name(c2) == "spifmem_free" else c2["ch"][1])
+                            if t_ is not None and t_.get("k") == "un" and t_.get("op") == "*" and X.strip(t_["ch"][0]).get("d") == pd_:
+                                released[rec].add(self_field(sa_["ch"][0]))
         al = field_aliases(f)
         for c in X.calls_in(f.body):
             if own.release_kind(c) in ("free", "del") and c["ch"][1:]:
